@@ -651,6 +651,48 @@ func serialRule(c *core.Ctx, rel, typ, meth, entryMeth string) {
 			}
 		}
 	}
+	// the accumulator starts empty: `b := make([]byte, 0)` / nil (append form)
+	if bad == "" && bufWrite == nil {
+		for _, b := range fn.Blocks {
+			for _, ins := range b.Instrs {
+				call, ok := ins.(*ssa.Call)
+				if !ok {
+					continue
+				}
+				if bi, ok := call.Call.Value.(*ssa.Builtin); !ok || bi.Name() != "append" {
+					continue
+				}
+				ph, ok := call.Call.Args[0].(*ssa.Phi)
+				if !ok {
+					bad = "the accumulator appended to is not the loop's accumulator"
+					continue
+				}
+				for i, e := range ph.Edges {
+					if e == ssa.Value(call) {
+						continue
+					}
+					_ = i
+					switch x := e.(type) {
+					case *ssa.MakeSlice:
+						if k, isK := constInt(x.Len); !isK || k != 0 {
+							bad = "the accumulator does not start empty: octets precede the first entry"
+						}
+					case *ssa.Const:
+						if !x.IsNil() {
+							bad = "the accumulator does not start empty"
+						}
+					case *ssa.Slice:
+						// make([]byte, 0) with a constant capacity compiles to new [N]byte; slice [:0]
+						if k, isK := constInt(x.High); !isK || k != 0 {
+							bad = "the accumulator does not start empty: octets precede the first entry"
+						}
+					default:
+						bad = "the accumulator does not start as an empty slice"
+					}
+				}
+			}
+		}
+	}
 	// with a bytes.Buffer accumulator the result is that buffer's Bytes() and nothing else is written to it
 	if bad == "" && bufWrite != nil {
 		okRet := false
@@ -791,6 +833,58 @@ func addRule(c *core.Ctx, rel, typ string) {
 				c.Fail("C16-ADD", key, pos, "the method assigns to its value receiver (e.g. to create the map when it is nil): the assignment is lost, so adding to an empty container has no effect")
 			} else {
 				c.OK("C16-ADD", key, pos, "mutation is visible to the caller")
+			}
+			// through a pointer receiver an empty (nil) container must be created before the store: on every path the
+			// map update is preceded by `*t != nil` established or by `*t = make(...)`
+			if fnObj, _ := pkg.TypesInfo.Defs[fd.Name].(*types.Func); isPtr && fnObj != nil {
+				sf := c.Prog.SSAFunc(fnObj)
+				if sf == nil || len(sf.Params) == 0 {
+					c.Broken("C16-ADD", key+"#nil-map", "no SSA body")
+					continue
+				}
+				recv := ssa.Value(sf.Params[0])
+				isRecvLoad := func(v ssa.Value) bool {
+					u, ok := v.(*ssa.UnOp)
+					return ok && u.Op == token.MUL && u.X == recv
+				}
+				ps, err := paths.Enumerate(sf, paths.Config{})
+				if err != nil {
+					c.Unknown("C16-ADD", key+"#nil-map", pos, "path enumeration failed: "+err.Error())
+					continue
+				}
+				bad := ""
+				updates := 0
+				for _, p := range ps {
+					if p.Aborted != "" {
+						bad = "path not analysable: " + p.Aborted
+						continue
+					}
+					nonNil := false
+					for _, e := range p.Events {
+						switch e.Kind {
+						case paths.EvBranch:
+							if subj, neq, ok := nilTest(e.Cond); ok && isRecvLoad(subj) && neq == e.Taken {
+								nonNil = true
+							}
+						case paths.EvInstr:
+							switch x := e.Instr.(type) {
+							case *ssa.Store:
+								if x.Addr == recv {
+									_, isMk := x.Val.(*ssa.MakeMap)
+									nonNil = isMk
+								}
+							case *ssa.MapUpdate:
+								if isRecvLoad(x.Map) {
+									updates++
+									if !nonNil {
+										bad = "a path stores into the container's map without having created it when it is nil: adding to an empty container panics"
+									}
+								}
+							}
+						}
+					}
+				}
+				c.Decide(bad == "" && updates > 0, "C16-ADD", key+"#nil-map", pos, "the map is non-nil or freshly made before every store", bad)
 			}
 		}
 	}
